@@ -133,3 +133,58 @@ def c13_generate_commits_every_atr(ctx, v):
             seen += 1
         v.covers_total += 1
         v.covers_sat += 1 if seen else 0
+
+
+def c13_pruned_block_selection(ctx, v):
+    """Block::generate_consensus_values: the block whose unspent outputs are rebroadcast is the
+    LONGEST-CHAIN block at height self.id - (genesis_period + 1): on every path that goes on to
+    load that block from disk, its hash was obtained from
+    BlockRing::get_longest_chain_block_hash_at_block_id with exactly that height (not from an
+    accessor that ignores the longest-chain designation)."""
+    ex = ctx.executor(loop_bound=4, inline="auto", max_paths=6000, no_inline=[r"BurnFee::", r"get_longest_chain_block_hash_at_block_id$", r"get_block_hash_by_block_id$", r"Storage::", r"MerkleTree::"])
+    ex.pure = [r".*"]
+    ex.stop_calls = [r"Storage::load_block_from_disk$"]
+    gp = ex.fresh_value("u64", "genesis_period")
+    ccfg = ctx.mk_struct(ex, "ConsensusConfig", "consensus", genesis_period=gp)
+
+    def hook(ex_, st, callee, args, dty):
+        if re.search(r"::get_consensus_config$", callee):
+            from .models import mk_some
+            return mk_some(dty, S.Ref(S.Cell(ccfg)))
+        return None
+    ex.on_call = hook
+    bid = ex.fresh_value("u64", "block.id")
+    block = ctx.mk_struct(ex, "Block", "block", id=bid, transactions=S.Seq([], "Transaction"))
+    st = S.State()
+    st.pc.extend([z3.ULE(gp.bv, 1 << 32), z3.UGE(gp.bv, 1)])
+    body, co = L.coroutine(ctx, ex, r"block::<impl at [^>]*>::generate_consensus_values",
+                           [S.Ref(S.Cell(block)), S.Ref(S.Cell(S.Opaque("blockchain", "Blockchain"))), S.Ref(S.Cell(S.Opaque("storage", "Storage"))), S.Ref(S.Cell(S.Opaque("cfg", "dyn Configuration")))])
+    outs = ex.run(body, [S.Ref(S.Cell(co), (), True), S.Opaque("cx", "Context")], st)
+    v.paths += len(outs)
+    reached = 0
+    for o in outs:
+        if o.kind in ("unsupported", "path-limit"):
+            return v.undecided("%s %s" % (o.kind, o.info))
+        if o.kind != "stopped":
+            continue
+        if not ex.feasible(o.pc):
+            continue
+        reached += 1
+        v.queries += 1
+        lc = [e for e in o.events if e[0] == "call" and re.search(r"BlockRing::get_longest_chain_block_hash_at_block_id$", e[1])]
+        want = bid.bv - (gp.bv + 1)
+        good = [e for e in lc if isinstance(e[2][1], S.I) and not ex.feasible(o.pc, e[2][1].bv != want)]
+        if not good:
+            v.fail("the block loaded for rebroadcast is not selected through the longest-chain index at height id - (genesis_period + 1)",
+                   dict(calls=[re.sub(r"<impl at [^>]*>", "", e[1])[-70:] for e in o.events if e[0] == "call"][-12:]))
+            continue
+        # the hash handed to blocks.get() must be that accessor's answer
+        gets = [e for e in o.events if e[0] == "call" and re.search(r"AHashMap::<\[u8; 32\], Block>::get::", e[1])]
+        from .models import as_enum, payload
+        from .models import value_eq
+        ans = ex.deref_value(payload(ex, as_enum(ex, good[-1][3], "Option"), "Some"))
+        used = [g for g in gets if isinstance(ex.deref_value(g[2][1]), S.Bytes) and isinstance(ans, S.Bytes) and not ex.feasible(o.pc, z3.Not(value_eq(ex, g[2][1], ans)))]
+        if not used:
+            v.fail("the hash answered by the longest-chain index is not the one used to fetch the block that is rebroadcast")
+    v.covers_total += 1
+    v.covers_sat += 1 if reached else 0
